@@ -62,6 +62,8 @@ def find_rrt_cases(script, scope, cases, text):
 
 
 def replay(ctx, data):
+    if data.get("kind") == "loop_rrt":
+        return check_loop_rrt(data["loop"], data["unrolled"])
     if data.get("kind") == "rrt":
         scope = gen.Scope()
         scope.vals = data["vals"]
@@ -69,11 +71,62 @@ def replay(ctx, data):
     return oracles.generic_replay(data)
 
 
+LOOP_FORMS = ["(k+1)*q%d - 2*q%d/k", "q%d/(q%d + k*k)", "k*q%d + q%d", "q%d**k - q%d", "(q%d - k)*(q%d + 1)"]
+
+
+def loop_rrt_case(rng):
+    """a register expression that mentions the loop variable: every iteration has its own transform"""
+    a, b = rng.sample(range(0, 13), 2)
+    lo = rng.randrange(1, 3)
+    hi = lo + rng.randrange(2, 4)
+    ty = rng.choice(["int", "float"])
+    body = []
+    for _ in range(rng.randrange(1, 3)):
+        f = rng.choice(LOOP_FORMS) % (a, b)
+        if rng.random() < 0.5:
+            body.append("Dgate(%s, 0.1) | 3" % f)
+        else:
+            body.append("G(0.5, select=%s) | 1" % f)
+    head = "name r\nversion 1.0\n\n"
+    loop = head + "for %s k in %d:%d\n" % (ty, lo, hi) + "".join("    %s\n" % l for l in body) + "Vac | 0\n"
+    lit = (lambda v: "%d.0" % v) if ty == "float" else (lambda v: "%d" % v)
+    import re as _re
+    unrolled = head + "".join(_re.sub(r"\bk\b", "(%s)" % lit(v), l) + "\n" for v in range(lo, hi) for l in body) + "Vac | 0\n"
+    return loop, unrolled
+
+
+def check_loop_rrt(loop, unrolled):
+    a, oa = core.impl_canon_loads(loop)
+    b, ob = core.impl_canon_loads(unrolled)
+    if a[0] != "prog":
+        return "loop script refused: %r" % (oa,)
+    if b[0] != "prog":
+        return "unrolled script refused: %r" % (ob,)
+    d = common.cmp_impl(a[1], b[1], loose_kinds=True)
+    if d:
+        return "loop body with a register expression over the loop variable differs from its unrolling: " + "; ".join(d[:3])
+    # the functions themselves, at a point
+    for x, y in zip(oa.operations, ob.operations):
+        for u, v in zip(list(x.get("args", [])) + list(x.get("kwargs", {}).values()),
+                        list(y.get("args", [])) + list(y.get("kwargs", {}).values())):
+            if hasattr(u, "func") and hasattr(v, "func"):
+                vals = {r: 0.37 + 0.11 * r for r in set(u.regrefs) | set(v.regrefs)}
+                try:
+                    fu = u.func(*[vals[r] for r in u.regrefs])
+                    fv = v.func(*[vals[r] for r in v.regrefs])
+                except Exception as e:  # noqa: BLE001
+                    return "transform raises %r" % (e,)
+                if not canon.close(fu, fv, 1e-9, 1e-12):
+                    return "transform of %s evaluates to %r, of the unrolled statement %s to %r" % (u.func_str, fu, v.func_str, fv)
+    return None
+
+
 def run(ctx):
     ctx.rule = ("random scripts with 1-3 polynomial/rational arguments over 1-5 distinct registers qN (int/float "
                 "coefficients, declared variables), in positional and keyword position, next to plain arguments; "
                 "oracle: regrefs = registers written (each once) and func(values in the listed order) = the written "
-                "formula at 3 points, 1e-9; expressions in which SymPy cancels a register are not generated; model "
+                "formula at 3 points, 1e-9; expressions in which SymPy cancels a register are not generated; for-loops "
+                "whose body holds register expressions over the loop variable, compared with their unrolling statement by statement; model "
                 "LOADS vs implementation; non-trivial = at least two distinct registers in one argument; distinct "
                 "by text. Hash-seed independence of the pairing is C19's sweep.")
     n = ctx.n(400, 6000)
@@ -91,4 +144,12 @@ def run(ctx):
         msg = find_rrt_cases(script, scope, cases, text)
         if msg:
             ctx.violation("register transform: " + msg, {"kind": "rrt", "script": script, "vals": scope.vals, "text": text})
+    for _ in range(ctx.n(60, 600)):
+        loop, unrolled = loop_rrt_case(ctx.rng)
+        ctx.count("loop-with-register-expression-over-loop-variable")
+        ctx.case(loop, nontrivial=True)
+        texts.append(loop)
+        msg = check_loop_rrt(loop, unrolled)
+        if msg:
+            ctx.violation("register transform in a loop: " + msg, {"kind": "loop_rrt", "loop": loop, "unrolled": unrolled})
     common.loads_corr(ctx, texts, "LOADS(registers)")
